@@ -1533,7 +1533,7 @@ func (m *MapPollard) Read(r io.Reader) (int, error) {
 	for i := 0; i < int(nodeCount); i++ {
 		bytes, err := io.ReadFull(r, buf[:])
 		if err != nil {
-			return bytes, err
+			return totalBytes, err
 		}
 		totalBytes += bytes
 		position := binary.LittleEndian.Uint64(buf[:])
@@ -1569,7 +1569,7 @@ func (m *MapPollard) Read(r io.Reader) (int, error) {
 		return nil
 	})
 	if err != nil {
-		return bytes, err
+		return totalBytes, err
 	}
 
 	return totalBytes, nil
